@@ -91,7 +91,8 @@ class ForestOptimizer(SMBO):
         Y_sample = np.array(self.Y_sample)
 
         if len(Y_sample) == 0:
-            return self.move_random()
+            # nothing to fit yet: _propose_location falls back to a random position
+            raise ValueError("no valid sample to train the surrogate model on")
 
         Y_sample = normalize(Y_sample).reshape(-1, 1)
         self.regr.fit(X_sample, Y_sample)
